@@ -1,5 +1,6 @@
-\* Small sub-space for the anti-vacuity witnesses: vectors do not depend on the constant sets, so a
-\* witness found here is also a vector of the quick and full configurations.
+\* Counter-example variant: a verify-function instance that keeps the digest of the first certificate it saw
+\* (seeded/c09-pin-digest-cache-hoisted).  TLC must report a violation of HistoryIndependent here (checks/c09.py
+\* requires it); never used as a passing configuration.
 SPECIFICATION Spec
 CONSTANTS
   Issuers = {"trusted", "otherca"}
@@ -10,8 +11,8 @@ CONSTANTS
   Roles = {"server", "client"}
   Modes = {"receptor", "dns"}
   StreamSrcs <- StreamSrcsQuick
-  KF_DigestCachedAcrossCalls = FALSE
+  KF_DigestCachedAcrossCalls = TRUE
   KF_ColonSplit = FALSE
   DumpFile = ""
 INVARIANTS
-  AcceptImpliesAll
+  HistoryIndependent
